@@ -6,11 +6,11 @@
 
 using namespace vh;
 
-static long ham_ncases(const std::string& tier) { return tier == "thorough" ? 4000 : 320; }
+static long ham_ncases(const std::string& tier) { return tier == "thorough" ? 40000 : 320; }
 
 static void ham_run(Ctx& c) {
     Rng& r = c.rng;
-    GenOpts g; g.max_modes = c.thorough() ? 8 : 6; g.allow_unbalanced = true; g.allow_spin_major = true;
+    GenOpts g; g.max_modes = c.thorough() ? (c.k % 50 == 0 ? 9 : 8) : 6; g.allow_unbalanced = true; g.allow_spin_major = true;
     g.pclasses.push_back("offset");
     ModelSpec m = gen_model(r, g);
     bool same_spins = true; for (auto& s : m.sites) same_spins = same_spins && s.nspin == m.sites[0].nspin;
